@@ -176,6 +176,12 @@ func runC11(args []string) {
 	histProgs := usable
 	if !rc.Thorough() && len(histProgs) > 24 {
 		histProgs = pick(histProgs, 24, rc.Seed)
+		// the multi-package programs always take part
+		for _, i := range usable {
+			if strings.HasPrefix(progs[i].Name, "multifile/") && indexOfInt(histProgs, i) < 0 {
+				histProgs = append(histProgs, i)
+			}
+		}
 	}
 	pipe.Parallel(len(histProgs), 16, func(ix int) {
 		i := histProgs[ix]
@@ -566,8 +572,32 @@ func multiFilePrograms() []multiFileProg {
 		files["kessoku.go"] = "package " + name + "\n\nimport \"github.com/mazrean/kessoku\"\n\nvar _ = kessoku.Inject[*App](\n\t\"InitApp\",\n\t" + strings.Join(provs, ",\n\t") + ",\n\tkessoku.Provide(NewApp),\n)\n"
 		return multiFileProg{name: name, files: files}
 	}
+	// a dependency type from a package that NO source file of the injector's package imports (the providers live in
+	// another package) and whose name differs from the last element of its import path (a /vN module): the
+	// generated file has to import it on its own, and how it spells that import must not depend on whether an
+	// earlier output (which already contains the import) is part of the loaded package
+	lazy := func(name string) multiFileProg {
+		files := map[string]string{}
+		files["pgx/v5/pgx.go"] = "package pgx\n\ntype Conn struct{ V int }\n\ntype Pool struct{ V int }\n"
+		files["yaml.v3/yaml.go"] = "package yaml\n\ntype Node struct{ V int }\n"
+		files["infra/infra.go"] = "package infra\n\nimport (\n\tpgx \"" + base + name + "/pgx/v5\"\n\tyaml \"" + base + name + "/yaml.v3\"\n)\n\ntype Repo struct{ V int }\n\nfunc NewConn() *pgx.Conn { return &pgx.Conn{} }\n\nfunc NewPool() *pgx.Pool { return &pgx.Pool{} }\n\nfunc NewRepo(c *pgx.Conn, n *yaml.Node) *Repo { return &Repo{} }\n\nfunc NewRepo2(c *pgx.Conn, p *pgx.Pool) *Repo { return &Repo{} }\n"
+		files["kessoku.go"] = "package " + name + "\n\nimport (\n\t\"github.com/mazrean/kessoku\"\n\t\"" + base + name + "/infra\"\n)\n\n" +
+			"// *pgx.Conn and *yaml.Node are supplied by nobody: they become injector arguments\nvar _ = kessoku.Inject[*infra.Repo](\n\t\"InitRepo\",\n\tkessoku.Provide(infra.NewRepo),\n)\n\n" +
+			"// predeclared variables of the foreign types in an Async injector\nvar _ = kessoku.Inject[*infra.Repo](\n\t\"InitRepoAsync\",\n\tkessoku.Async(kessoku.Provide(infra.NewConn)),\n\tkessoku.Async(kessoku.Provide(infra.NewPool)),\n\tkessoku.Provide(infra.NewRepo2),\n)\n"
+		return multiFileProg{name: name, files: files}
+	}
 	return []multiFileProg{
 		mk("mfsync", []string{"storage", "cache"}, false),
 		mk("mfasync", []string{"storage", "cache", "queue"}, true),
+		lazy("lazyimport"),
 	}
+}
+
+func indexOfInt(xs []int, x int) int {
+	for i, v := range xs {
+		if v == x {
+			return i
+		}
+	}
+	return -1
 }
